@@ -32,7 +32,7 @@ UEnd ==
          ops == Ops
          fin == FinalRep(ops, ids)
      IN /\ (Cardinality(ops) # Len(decl.ops)) => Bad("an-operation-did-not-return")
-        /\ (\E i \in ids : Ev.reps[i + 1] # fin[i]) => Bad("final-representatives-are-not-the-least-ids-of-the-classes-of-the-unions")
+        /\ (\E i \in ids : Ev.reps[i + 1] # fin[i]) => Bad("final-representatives-are-not-the-least-ids-of-the-classes")
         /\ (~RelaxedLinearizable(ops, ids)) => Bad("history-not-linearizable")
         /\ (RelaxedLinearizable(ops, ids) /\ ~Linearizable(ops, ids)) => Bad("union-returned-a-parent-that-was-no-longer-a-root")
   /\ UNCHANGED <<decl, calls, rets>>
